@@ -40,7 +40,7 @@ type step struct {
 
 func (s step) String() string {
 	switch s.Op {
-	case "mine", "remine":
+	case "mine", "remine", "remine-silent":
 		var k []string
 		for _, l := range s.Logs {
 			a := "core"
@@ -54,6 +54,8 @@ func (s step) String() string {
 		return fmt.Sprintf("%s%d", s.Op, s.N)
 	case "reobs", "drop", "status0":
 		return fmt.Sprintf("%s(tx%d)", s.Op, s.Tx)
+	case "removed":
+		return fmt.Sprintf("removal-notice(tx%d: logs of the block it left)", s.Tx)
 	case "fault":
 		return "fault(" + s.Method + ")"
 	case "hold":
@@ -125,6 +127,8 @@ func (w *world) apply(s step, hist []step, check bool) {
 	case "remine":
 		w.c.Mine(txh(s.Tx), s.Block, s.Fork, 1, s.Logs, true)
 		w.d.Quiesce()
+	case "remine-silent": // the chain has reorganised, the node has not announced the new log yet
+		w.c.Mine(txh(s.Tx), s.Block, s.Fork, 1, s.Logs, false)
 	case "head+":
 		h, _ := w.c.Snapshot()
 		w.c.SetHead(h + s.N)
@@ -145,6 +149,9 @@ func (w *world) apply(s step, hist []step, check bool) {
 		w.reobsOpen = w.c.Parked() > before // the re-observation itself is suspended in a node call
 	case "drop":
 		w.c.DropReceipt(txh(s.Tx))
+	case "removed": // the node announces the logs of the block the transaction has left, flagged as removed
+		w.c.NotifyRemoved(txh(s.Tx))
+		w.d.Quiesce()
 	case "status0":
 		w.c.SetStatus(txh(s.Tx), 0)
 	case "fault":
@@ -384,14 +391,50 @@ func run(sc scenario, steps []step, check bool) string {
 	}
 	first := map[int]step{}
 	moved := map[int]bool{}
+	last := map[int]step{}   // re-mined transactions: the block they end up in ...
+	gone := map[int]bool{}    // ... unless they disappear or fail afterwards
 	for _, s := range steps {
 		switch s.Op {
 		case "mine":
 			if _, ok := first[s.Tx]; !ok {
 				first[s.Tx] = s
+			} else {
+				moved[s.Tx] = true // placed a second time (an edit put a re-mine in front of it)
+				last[s.Tx] = s
+				gone[s.Tx] = false
 			}
-		case "remine", "drop", "status0":
+		case "remine-silent": // moved, and the node has not announced the new log: nothing to expect until it does
+			if _, ok := first[s.Tx]; !ok {
+				first[s.Tx] = s
+			}
 			moved[s.Tx] = true
+			delete(last, s.Tx)
+		case "remine":
+			if _, ok := first[s.Tx]; !ok {
+				first[s.Tx] = s
+			} else {
+				moved[s.Tx] = true
+			}
+			last[s.Tx] = s
+			gone[s.Tx] = false
+		case "drop", "status0":
+			moved[s.Tx] = true
+			gone[s.Tx] = true
+		}
+	}
+	// a transaction that was re-mined and then STAYS in its new block: the message observed there is forwarded
+	for tx, s := range last {
+		if gone[tx] || !moved[tx] {
+			continue // disappeared / failed afterwards, or placed only once (judged below)
+		}
+		bt := int64(1_700_000_000+s.Block*12) + int64(s.Fork)
+		for _, l := range s.Logs {
+			if l.Address != ethh.Core || l.Topic != "published" {
+				continue
+			}
+			if w.fwd[fmt.Sprintf("%x/%d/%d", txh(tx).Bytes()[30:], l.Seq, bt)] == 0 {
+				viol(sc, steps, "C10 a message whose transaction was re-mined and then stayed in its new block was never forwarded although the node never failed to confirm it", fmt.Sprintf("tx%d seq %d level %d, block %d fork %d", tx, l.Seq, l.CL, s.Block, s.Fork))
+			}
 		}
 	}
 	for tx, s := range first {
@@ -478,6 +521,28 @@ func bases() []scenario {
 		out = append(out, scenario{Name: fmt.Sprintf("second-after-first-confirmed/wait=%v", wc), WaitConf: wc, Level: 5,
 			Steps: []step{{Op: "mine", Tx: 1, Block: 101, Logs: []ethh.LogSpec{core(5, 1)}}, {Op: "poll"}, {Op: "head+", N: 2}, {Op: "poll"},
 				{Op: "mine", Tx: 2, Block: 104, Logs: []ethh.LogSpec{core(6, 5)}}, {Op: "head+", N: 6}, {Op: "poll"}}})
+	}
+	// a reorg re-mines the transaction in another block: the node announces the new block's log and, on a separate
+	// feed, the removal of the old block's log - in either order; the transaction then stays in its new block
+	for _, wc := range []bool{true, false} {
+		for _, newFirst := range []bool{true, false} {
+			for _, confirmedBefore := range []bool{false, true} {
+				st := []step{{Op: "mine", Tx: 1, Block: 101, Logs: []ethh.LogSpec{core(5, 3)}}, {Op: "poll"}}
+				if confirmedBefore {
+					st = append(st, step{Op: "head+", N: 4}, step{Op: "poll"})
+				}
+				re := step{Op: "remine", Tx: 1, Block: 106, Fork: 1, Logs: []ethh.LogSpec{core(5, 3)}}
+				if newFirst {
+					st = append(st, re, step{Op: "removed", Tx: 1})
+				} else {
+					// the removal notice first: the sim records the old logs at the re-mine, so the re-mine is applied
+					// without announcing its log, the notice is sent, then the new log is announced by re-mining again
+					st = append(st, step{Op: "remine-silent", Tx: 1, Block: 106, Fork: 1, Logs: []ethh.LogSpec{core(5, 3)}}, step{Op: "removed", Tx: 1}, re)
+				}
+				st = append(st, step{Op: "head+", N: 10}, step{Op: "poll"}, step{Op: "head+", N: 1}, step{Op: "poll"})
+				out = append(out, scenario{Name: fmt.Sprintf("re-mined-with-removal-notice/wait=%v/new-log-first=%v/confirmed-before=%v", wc, newFirst, confirmedBefore), WaitConf: wc, Level: 3, Steps: st})
+			}
+		}
 	}
 	// several messages with different consistency levels in ONE transaction (both orders), re-observed
 	// while the head is between the two depths
